@@ -460,8 +460,9 @@ def check_dict_content(rec, m, spec, t, d, rs, combos, tag=''):
               f'got = {{(k if isinstance(k, str) else k.id.path): nv(v) '
               f'for k, v in {call}.items()}}\n'
               f'assert got == {want2!r}, got')
-    rec.case(f'to_dict/content/key={kt}/value={vt}/multi={mkk}{tag}',
-             (key0, inc), ok, msg,
+    rec.case(f'to_dict/content/value={vt}{tag}' if tag else
+             f'to_dict/content/key={kt}/value={vt}/multi={mkk}',
+             (key0, kt, mkk, inc), ok, msg,
              wit(m, f'd = {bind_src(t)}\n' + wtxt))
 
 
@@ -481,8 +482,9 @@ def check_dict_roundtrip(rec, m, spec, t, d, combos, tag=''):
     except Exception as e:  # pylint: disable=broad-except
       ok, back = False, None
       msg = f'from_dict({call}) raised {type(e).__name__}: {e}'[:400]
-    rec.case(f'from_dict/roundtrip/key={kt}/value={vt}/multi={mkk}{tag}',
-             (key0, inc), ok, msg, wit(
+    rec.case(f'from_dict/roundtrip/value={vt}{tag}' if tag else
+             f'from_dict/roundtrip/key={kt}/value={vt}/multi={mkk}',
+             (key0, kt, mkk, inc), ok, msg, wit(
                  m, f'd = {bind_src(t)}\n'
                  f'x = D.from_dict(dict({call}), spec{kw})\nassert x == d, x'))
     if ok and vt in ('value', 'dna'):
@@ -604,10 +606,10 @@ def drv_numbers_and_json(tier, seed):
              'nested, JSON compact/verbose as object and as string'))
   r = rng(seed, 'c12.numbers')
   cap = 10 if tier == 'quick' else 60
-  t0 = time.time()
+  t0 = time.process_time()
   budget = 38 if tier == 'quick' else 500
   for m in view_specs(tier, r):
-    if time.time() - t0 > budget:
+    if time.process_time() - t0 > budget:
       break
     spec = build(m)
     for t in sample_members(m, cap, r):
@@ -632,7 +634,7 @@ def drv_dict_views(tier, seed):
   r = rng(seed, 'c12.dict')
   cap = 6 if tier == 'quick' else 40
   window = 3 if tier == 'quick' else 16
-  t0 = time.time()
+  t0 = time.process_time()
   budget = 40 if tier == 'quick' else 540
   rot = 0
   specs = view_specs(tier, r)
@@ -646,7 +648,7 @@ def drv_dict_views(tier, seed):
   built = {}
   full_budget = 9 if tier == 'quick' else 45
   for j, si, m, t in work:
-    if time.time() - t0 > budget:
+    if time.process_time() - t0 > budget:
       break
     if si not in built:
       built[si] = build(m)
@@ -768,7 +770,7 @@ def drv_alignment(tier, seed):
              'step): node.spec identity per position + to_dict vs expectation '
              'from raw numbers'))
   r = rng(seed, 'c12.align')
-  t0 = time.time()
+  t0 = time.process_time()
   budget = 40 if tier == 'quick' else 540
   n_start = 4 if tier == 'quick' else 10
   chains = 4 if tier == 'quick' else 14
@@ -779,7 +781,7 @@ def drv_alignment(tier, seed):
 
   for rnd in range(2 if tier == 'quick' else 3):
     for si, m in enumerate(specs):
-      if time.time() - t0 > budget:
+      if time.process_time() - t0 > budget:
         break
       spec = build(m)
       mem = members(m)
@@ -809,7 +811,7 @@ def drv_alignment(tier, seed):
                                    bind_src(shape(prev))) + ')\n')
           prev = x
       for t in starts:
-        if time.time() - t0 > budget:
+        if time.process_time() - t0 > budget:
           break
         tsrc = dsrc(t)
         d = mk(t).use_spec(spec)
@@ -857,7 +859,7 @@ def drv_alignment(tier, seed):
                      wit(m, f'import copy\nd = {bind_src(t)}\nassert {text} == d'))
         # ---- single operators and chains ----------------------------------
         for c in range(chains):
-          if time.time() - t0 > budget:
+          if time.process_time() - t0 > budget:
             break
           opseed = r.randrange(1000)
           ops = operators(opseed)
@@ -958,12 +960,12 @@ def drv_literal_forms(tier, seed):
              'member); parameters() / from_parameters round trip'))
   r = rng(seed, 'c12.literals')
   cap = 4 if tier == 'quick' else 16
-  t0 = time.time()
+  t0 = time.process_time()
   budget = 35 if tier == 'quick' else 400
   for form, lits in LITERAL_FORMS:
     tag = f'/lits={form}'
     for si_, m in enumerate(literal_specs(lits)):
-      if time.time() - t0 > budget:
+      if time.process_time() - t0 > budget:
         break
       spec = build(m)
       for j, t in enumerate(sample_members(m, cap, r)):
@@ -1011,16 +1013,16 @@ def matrix_specs(tier):
   out = []
   for distinct, srt in FLAGS:
     out += [
-        SP(leaf(3, 2, distinct, srt), FL(0.0, 1.0)),
-        SP(leaf(4, 3, distinct, srt), leaf(2)),
+        SP(leaf(4, 3, distinct, srt), FL(0.0, 1.0)),
         # candidates with nested decision points (equal indices may still
         # carry different sub-trees)
         SP(CH(3, [S2, C, SM], distinct, srt)),
         # a multi-choice inlined below a conditional choice
-        SP(ONE([SP(leaf(4, 3, distinct, srt)), C]), FL(0.0, 1.0)),
+        SP(ONE([SP(leaf(4, 3, distinct, srt)), C]), leaf(2)),
     ]
     if tier != 'quick':
       out += [
+          SP(leaf(3, 2, distinct, srt), leaf(2)),
           SP(leaf(4, 4, distinct, srt)),
           SP(leaf(5, 3, distinct, srt), leaf(2)),
           CH(3, [S2, C, S3, C], distinct, srt),
@@ -1052,28 +1054,30 @@ def drv_operator_matrix(tier, seed):
   rec = Recorder(
       PROP, 'search operators keep every node aligned, for every kind of '
       'multi-choice',
-      scope=('multi-choices of all 4 distinct/sorted kinds x 4 layouts (3 '
-             'choose 2 + float, 4 choose 3 + choice, 3 of conditional '
-             'candidates, 4 choose 3 below a conditional choice; thorough: 4 '
-             'more incl. 4 of 4, 5 choose 3, bare root, nested multi-choice); '
-             'starts: members with most equal-valued siblings + seeded sample '
-             '(quick 5, thorough 12); operators: mutators.Uniform restricted '
-             '(where=) to each active decision point in turn x seeds (quick '
-             '3, thorough 6), unrestricted Uniform, Swap, and the 9 '
-             'recombinators with 2 seeded partners: node.spec identity per '
-             'position + to_dict vs expectation from raw numbers'))
+      scope=('multi-choices of all 4 distinct/sorted kinds x 3 layouts (4 '
+             'choose 3 + float, 3 of conditional candidates, 4 choose 3 below '
+             'a conditional choice; thorough: 5 more incl. 3 choose 2, 4 of 4, '
+             '5 choose 3, bare root, nested multi-choice); starts: members '
+             'with most equal-valued siblings + seeded sample (quick 4, '
+             'thorough 12); operators: mutators.Uniform restricted (where=) '
+             'to each active decision point in turn x seeds (quick 3, '
+             'thorough 6), unrestricted Uniform and Swap x seeds, and the 9 '
+             'recombinators with seeded partners (quick: 1 partner on every '
+             'other start, thorough 3): node.spec identity per position + '
+             'to_dict vs expectation from raw numbers'))
   evo = _evo()
   r = rng(seed, 'c12.matrix')
-  t0 = time.time()
+  t0 = time.process_time()
   budget = 35 if tier == 'quick' else 500
-  n_start = 5 if tier == 'quick' else 12
+  n_start = 4 if tier == 'quick' else 12
   n_seed = 3 if tier == 'quick' else 6
+  n_partner = 1 if tier == 'quick' else 3
   for m in matrix_specs(tier):
-    if time.time() - t0 > budget:
+    if time.process_time() - t0 > budget:
       break
     spec = build(m)
     mem = members(m)
-    for t in matrix_starts(m, r, n_start):
+    for ti, t in enumerate(matrix_starts(m, r, n_start)):
       d = mk(t).use_spec(spec)
       base = f'd = {bind_src(t)}\n'
       rs, _ = records(m, spec, t, d)
@@ -1105,7 +1109,7 @@ def drv_operator_matrix(tier, seed):
         for name, arity, fn, osrc in operators(opseed):
           if arity == 1:
             inputs, itxt = [d], '[d]'
-          elif k < 2:
+          elif k < n_partner and (ti % 2 == 0 or tier != 'quick'):
             o = r.choice(mem)
             inputs, itxt = [d, mk(o).use_spec(spec)], f'[d, {bind_src(o)}]'
           else:
@@ -1258,7 +1262,7 @@ def drv_binding_history(tier, seed):
              'node.spec identity per position, to_dict vs expectation from raw '
              'numbers, lookup of every decision, from_dict(to_dict())'))
   r = rng(seed, 'c12.history')
-  t0 = time.time()
+  t0 = time.process_time()
   budget = 35 if tier == 'quick' else 500
   n_mem = 2 if tier == 'quick' else 8
   per_kind = 1 if tier == 'quick' else 3
@@ -1299,7 +1303,7 @@ def drv_binding_history(tier, seed):
         'assert D.from_dict(x.to_dict(), spec) == x'))
 
   for si, m in enumerate(specs):
-    if time.time() - t0 > budget:
+    if time.process_time() - t0 > budget:
       break
     spec = build(m)
     mem = members(m)
